@@ -125,6 +125,12 @@ pub struct Config
     /// `(actor, entity)`: the actor's closure captures a clone of the auto-despawn signal of that trigger entity (the
     /// entity is prepared for auto-despawn at setup); the clone is released when the actor's system state is dropped.
     pub actor_signals: Vec<(ActorId, EntId)>,
+    /// Operations that have a `World`-level API (run, system event, broadcast, entity event, insertion, resource
+    /// trigger / non-reacting access) are issued through it (from a plain closure command) instead of `Commands`.
+    pub world_route: bool,
+    /// Component accessors go through the `single*` convenience accessors whenever exactly one entity carries the
+    /// component and it is the addressed one.
+    pub single_route: bool,
 }
 
 pub fn no_ops() -> AlphabetFn { Arc::new(|_| Vec::new()) }
@@ -152,6 +158,8 @@ impl Config
             final_gc: false,
             auto_ents: vec![],
             actor_signals: vec![],
+            world_route: false,
+            single_route: false,
             frame: None,
             final_ops: vec![],
             fixed_scripts: vec![],
@@ -178,6 +186,8 @@ pub struct Ctx
     pub ents: Vec<Entity>,
     pub tokens: Vec<RevokeToken>,
     pub signals: Vec<Option<bevy_cobweb::prelude::AutoDespawnSignal>>,
+    /// The only entity carrying the component about to be accessed, if there is exactly one.
+    pub single_holder: Option<Entity>,
     pub next_payload: PayloadId,
     pub budget_left: u32,
     pub used_actors: u32,
@@ -238,6 +248,7 @@ impl Ctx
             ents: Vec::new(),
             tokens: Vec::new(),
             signals: Vec::new(),
+            single_holder: None,
             next_payload: 0,
             budget_left,
             used_actors: 0,
